@@ -13,9 +13,11 @@ ASSUMPTIONS = ["key_expired and allocation failure after authentication are not 
 
 
 def scenario(rng, k, tier):
-    wildcard = rng.random() < 0.5
+    wildcard = rng.random() < 0.5 if k % 3 else (k % 6 == 0)
     ssrcs = [rng.randrange(2, 1 << 32) for _ in range(3)]
     p = rand_policy(rng, ssrc=ssrcs[0], valid=True, allow_cryptex=False)
+    if k % 3 == 0 and not p.enc_xtn:
+        p.enc_xtn = bytes(rng.sample(range(1, 15), 2))      # every third scenario has RFC 6904 ids: the authentic-but-refused packets below need them
     aead = p.rtp[0] in (GCM128, GCM256)              # AES-GCM always authenticates (tag 16 or 8)
     if not aead:
         if p.rtp[5] & 2 == 0 or p.rtp[4] == 0 or p.rtp[2] != HMAC:
@@ -84,7 +86,10 @@ def scenario(rng, k, tier):
             L.append("dealloc 4"); L.append("create 4 3")
             if seq[s] >> 16:
                 L.append(f"setroc 4 {H(s)} {H(seq[s] >> 16)}")
-            bad = rtp_packet(s, seq[s] & 0xffff, payload=rand_key(rng, 9), cc=rng.choice([0, 2]),
+            # under a wildcard policy the refused packet may also be the FIRST packet of an SSRC the receiver has no stream for:
+            # the call fails, so no stream may exist afterwards
+            s_bad = (s ^ 0x5a5a0000 ^ len(L)) if (wildcard and rng.random() < 0.6) else s
+            bad = rtp_packet(s_bad, seq[s] & 0xffff, payload=rand_key(rng, 9), cc=rng.choice([0, 2]),
                              ext=(rng.choice([0x1234, 0xABCD, 0xBEDF]), rand_key(rng, 4 * rng.choice([0, 1, 3]))))
             L.append(pkt_op("protect", 4, bad, cap=len(bad) + 200, mki_index=mi)); ra = len(L)
             snapshot("b")
